@@ -174,6 +174,12 @@ def gen_spec(rng: random.Random, circular=None, length=None, max_genes: int = 14
         genes.insert(genes.index(base) + rng.choice([0, 1]),
                      {"parts": [list(p) for p in base["parts"]], "strand": -base["strand"], "codon_start": 1,
                       "stop": False, "bridging": False})
+    for gene in genes:
+        # the frame offset is taken off the first exon in reading order: that exon has to be longer than the offset
+        # (a gene whose first exon is swallowed by /codon_start is not a record the reader can represent)
+        first_read = gene["parts"][0] if gene["strand"] == 1 else gene["parts"][-1]
+        if gene["codon_start"] > 1 and first_read[1] - first_read[0] <= gene["codon_start"] - 1:
+            gene["codon_start"] = 1
     seen = set()
     unique = []
     for gene in genes:
